@@ -129,7 +129,7 @@ def engine_modes(prog, tier):
     out = []
     for gold in (True, False):
         out.append(('setup %s' % ('gold' if gold else 'silver'), inputs.place_state(prog, gold)))
-    sqs = [G.sq('d', 4)] if tier == 'quick' else [G.sq('d', 4), G.sq('a', 8), G.sq('h', 1), G.sq('c', 3), G.sq('e', 2), G.sq('h', 8), G.sq('a', 1)]
+    sqs = [G.sq('d', 4), G.sq('a', 5), G.sq('h', 1)] if tier == 'quick' else [G.sq('d', 4), G.sq('a', 8), G.sq('h', 1), G.sq('c', 3), G.sq('e', 2), G.sq('h', 8), G.sq('a', 1)]
     for gold in (True, False):
         for step in range(4):
             for trapped in ((False,) if tier == 'quick' else (False, True)):
@@ -214,6 +214,27 @@ def check_c19(ctx, prog, tier):
                 nrun += run_entry(ctx, I, ent[n],
                                   lambda I_, st, a=a, gsv=gsv: [inputs.ref_to(I_, st, 'gs', gsv), inputs.ref_to(I_, st, 'act', a)],
                                   '%s / %s' % (n, desc))
+        # every offered action (the items of the abstract list, under their own guard) is applied and previewed
+        if not setup:
+            from .rules_c01 import run_valid_actions
+            try:
+                lst = run_valid_actions(I, prog, gsv, False)
+            except Undecided:
+                lst = None
+            for it in (lst.items if lst is not None else ()):
+                gate = C1
+                cur = it
+                while cur[0] in ('cond', 'filtered'):
+                    gate = B.band(gate, cur[1])
+                    cur = cur[2]
+                act = cur[1] if cur[0] == 'elem' else cur[2]
+                if cur[0] == 'bulk':
+                    gate = B.band(gate, I.nonzero_bit(cur[1]))
+                for n in ('GameState::take_action', 'GameState::trapped_animal_for_action'):
+                    def build(I_, st, act=act, gsv=gsv, gate=gate):
+                        st.pc = (gate,) if gate is not C1 else ()
+                        return [inputs.ref_to(I_, st, 'gs', gsv), inputs.ref_to(I_, st, 'act', act)]
+                    nrun += run_entry(ctx, I, ent[n], build, '%s(offered item) / %s' % (n, desc))
         for i in range(0, (step if not setup else 0) + 1):
             nrun += run_entry(ctx, I, ent['GameState::piece_board_for_step'],
                               lambda I_, st, i=i, gsv=gsv: [inputs.ref_to(I_, st, 'gs', gsv), BV.const(i, 64)],
@@ -233,7 +254,7 @@ def check_c19(ctx, prog, tier):
             pp = inputs.play_phase(prog, 2, inputs.push_pull_state(prog, 'None'), False)
             nrun += run_entry(ctx, I, ent[n], lambda I_, st, pp=pp: [inputs.ref_to(I_, st, 'pp', pp)], n)
     ctx.setcount('entry_runs', nrun)
-    ctx.floor('C19 entry-point runs', nrun, 250)
+    ctx.floor('C19 entry-point runs', nrun, 600)
     nd, nu, ni = classify(ctx, prog, I, sites, 'C19', 'engine')
     ctx.floor('C19 panic sites in the reachable engine code', len(sites), 40)
     ctx.floor('C19 panic sites discharged by evaluation', nd, 25)
